@@ -4,7 +4,7 @@
    replayed on the implementation by the check (harness/findings.py) and listed
    in /verif/known_findings.json while the defect is open. *)
 From Coq Require Import QArith Qminmax List Bool Arith.
-From WSI Require Import Vqip Pow Tank Arc QTank Run.
+From WSI Require Import Vqip Pow Tank Arc QTank Distrib Kinds Leak Run.
 Import ListNotations.
 Open Scope Q_scope.
 
@@ -37,4 +37,18 @@ Definition w_tiny : vqip := mkV (1#1000000000000) [1#1] [].
 Example tiny_push_is_handed_back :
   let q := q_init (10#1) 1 [] in let s := (w_idle, w_rejecting) in
   q_send_push _ nbport q s w_tiny false 0 = (q, s, w_tiny).
+Proof. vm_compute. reflexivity. Qed.
+
+(* C07 / C18 (open finding distribution-leakage-bounced-to-consumer): a Distribution with 10 % leakage between a
+   reservoir holding 1000 and a consumer; its groundwater neighbour has room for 1/2.  A pull of 9 draws 10 from the
+   reservoir, 1 leaks, groundwater takes 1/2 and the other 1/2 is handed to the consumer on top of the 9 asked for.
+   (LeakLaws.dn_pull_within_request_when_placed is the positive statement: at most the request whenever the leak is
+   placed.)  Replayed on the implementation by harness/findings.py distribution_leakage_bounced. *)
+Definition w_idle_nb : nb := NS (mkS [0] [0] 0 vzero).
+Definition w_leak_node : dnode (nb * nb) :=
+  mkDN _ [mkSA _ (a_init (1000000000000000#1)) 1 (NT (t_init (1000#1) (mkV (1000#1) [] []) [] (2#1)), w_idle_nb) T_RESERVOIR]
+         [mkSA _ (a_init (1000000000000000#1)) 1 (w_idle_nb, NT (t_init (1#2) (mkV 0 [] []) [] (2#1))) T_GROUNDWATER]
+         (1#10).
+Example C18_refuted_leak_bounced_to_consumer :
+  match dn_pull_set _ nbport 5 w_leak_node (9#1) with Some (_, r) => vol r == 19#2 | None => False end.
 Proof. vm_compute. reflexivity. Qed.
